@@ -201,3 +201,45 @@ Theorem T15a_marker_not_updated_refuted :
   fge (FFin (-1756)) (FFin (-1225)) = false.
 Proof. exact marker_not_updated_refuted. Qed.
 Print Assumptions T15a_marker_not_updated_refuted.
+
+Theorem T15b_split_parser_refuted :
+  let c0 := with_parse the_code (fun line =>
+              match nth_error (split_on "=" line) 0, nth_error (split_on "=" line) 1 with
+              | Some a, Some b => Some (py_strip a, b) | _, _ => None end) in
+  let cfg := {| cf_names := ["a=b"; "b2"]; cf_model := "m"; cf_save := true; cf_init0 := ["0.25"; "-0.5"] |} in
+  load_file string read_txt c0 (file_content string show_txt c0 cfg ["0.5"; "0.5"])
+    <> Some (combine (cf_names string cfg) ["0.5"; "0.5"]) /\
+  load_file string read_txt the_code (file_content string show_txt the_code cfg ["0.5"; "0.5"])
+    = Some (combine (cf_names string cfg) ["0.5"; "0.5"]).
+Proof. exact split_parser_refuted. Qed.
+Print Assumptions T15b_split_parser_refuted.
+
+Theorem T15d_quick_without_prologue_refuted :
+  let c0 := with_quick the_code [] in
+  let s := step string show_txt read_txt os_replace_atomic c0 cfg2 (fresh string cfg2 old_file) QuickStart in
+  st_init string s = ["0.25"; "-0.5"] /\
+  st_fs string (step string show_txt read_txt os_replace_atomic c0 cfg2 s (Eval ["0.25"; "-0.5"] (FFin (-3350)) true)) "__m.iter"
+    = Some (file_content string show_txt c0 cfg2 ["0.25"; "-0.5"]) /\
+  st_init string (step string show_txt read_txt os_replace_atomic the_code cfg2 (fresh string cfg2 old_file) QuickStart)
+    = ["1.5"; "2.5"].
+Proof. exact quick_without_prologue_refuted. Qed.
+Print Assumptions T15d_quick_without_prologue_refuted.
+
+Theorem T15f_bootstrap_not_suspended_refuted :
+  let c0 := with_boot the_code false true in
+  st_fs string (run string show_txt read_txt os_replace_atomic c0 cfg2 (fresh string cfg2 old_file)
+     [EstimateStart; Eval ["1.0"; "2.0"] (FFin 0) true; BootstrapBegin;
+      Eval ["0.9"; "2.1"] (FFin 7) true]) "__m.iter"
+  = Some (file_content string show_txt c0 cfg2 ["0.9"; "2.1"]).
+Proof. exact bootstrap_not_suspended_refuted. Qed.
+Print Assumptions T15f_bootstrap_not_suspended_refuted.
+
+Theorem T15f_bootstrap_data_not_restored_refuted :
+  let c0 := with_boot the_code true false in
+  let s := run string show_txt read_txt os_replace_atomic c0 cfg2 (fresh string cfg2 old_file)
+             [EstimateStart; BootstrapBegin; BootstrapEnd; QuickStart] in
+  st_other string s = true /\ st_susp string s = false /\
+  st_fs string (step string show_txt read_txt os_replace_atomic c0 cfg2 s (Eval ["0.9"; "2.1"] (FFin 7) true)) "__m.iter"
+  = Some (file_content string show_txt c0 cfg2 ["0.9"; "2.1"]).
+Proof. exact bootstrap_data_not_restored_refuted. Qed.
+Print Assumptions T15f_bootstrap_data_not_restored_refuted.
